@@ -55,9 +55,10 @@ type Case struct {
 	Pre     []RawOp `json:"pre,omitempty"`
 	Events  []Ev    `json:"events,omitempty"`
 	Raw     []RawOp `json:"raw,omitempty"`
-	Foreign bool    `json:"foreign,omitempty"`  // foreign entries planted: property monitors off, model comparison on
-	BadName bool    `json:"bad_name,omitempty"` // file names outside the model: model comparison off
-	Reader  bool    `json:"reader,omitempty"`   // run a concurrent reader goroutine
+	Foreign bool    `json:"foreign,omitempty"`    // foreign entries planted: property monitors off, model comparison on
+	BadName bool    `json:"bad_name,omitempty"`   // file names outside the model: model comparison off
+	Reader  bool    `json:"reader,omitempty"`     // run a concurrent reader goroutine
+	RelTgt  bool    `json:"rel_target,omitempty"` // Options.Target is given relative to the working directory (= sandbox root)
 }
 
 func (c Case) key() string {
@@ -161,11 +162,11 @@ func (w *world) scan() string {
 		switch {
 		case info.Mode()&os.ModeSymlink != 0:
 			to, _ := os.Readlink(p)
-			if filepath.IsAbs(to) {
-				ents = append(ents, cp+"|l:"+w.canonAbs(to))
-			} else {
-				ents = append(ents, cp+"|l:!rel:"+safeName(to))
+			if !filepath.IsAbs(to) {
+				// a relative link is resolved against the directory that holds it
+				to = filepath.Join(filepath.Dir(p), to)
 			}
+			ents = append(ents, cp+"|l:"+w.canonAbs(to))
 		case info.IsDir():
 			ents = append(ents, cp+"|d")
 		default:
@@ -536,6 +537,15 @@ func runCase(c Case, drv *lib.Drv, res *lib.Result, work string, n int) {
 	}
 	defer os.RemoveAll(w.root)
 	res.Hit("family." + c.Family)
+	if c.RelTgt {
+		if cwd, err := os.Getwd(); err == nil {
+			defer os.Chdir(cwd)
+		}
+		if err := os.Chdir(w.root); err != nil {
+			res.Note("chdir: " + err.Error())
+			return
+		}
+	}
 	if drv != nil {
 		if _, err := drv.Ask("reset base=" + w.canonComps(w.baseRel)); err != nil {
 			res.Disagree("C18/driver", c, err.Error(), "")
@@ -570,7 +580,11 @@ func runCase(c Case, drv *lib.Drv, res *lib.Result, work string, n int) {
 			continue
 		}
 		if w.d == nil {
-			w.d = dir.New(dir.Options{Log: w.log, Target: w.target})
+			tg := w.target
+			if c.RelTgt {
+				tg = filepath.Join(append(append([]string{}, w.baseRel...), c.TName)...)
+			}
+			w.d = dir.New(dir.Options{Log: w.log, Target: tg})
 			w.hasPrev = false
 		}
 		setsMu.Lock()
@@ -687,6 +701,23 @@ func main() {
 		runOne(c)
 		res.Write(fl.Out)
 		return
+	}
+	// corpus: minimised past findings, run first
+	if vd := os.Getenv("VERIF_DIR"); vd != "" {
+		files, _ := filepath.Glob(filepath.Join(vd, "corpus", "C18", "*.json"))
+		sort.Strings(files)
+		for _, f := range files {
+			b, err := os.ReadFile(f)
+			var rf struct {
+				Case Case `json:"case"`
+			}
+			if err != nil || json.Unmarshal(b, &rf) != nil {
+				res.Note("corpus file unreadable: " + f)
+				continue
+			}
+			rf.Case.Family = "corpus"
+			runOne(rf.Case)
+		}
 	}
 	rng := lib.NewRand(fl.Seed)
 	for _, c := range generate(fl.Tier, fl.Search, rng) {
